@@ -23,6 +23,11 @@ func genC05(rng *rand.Rand, n int, emit func(Case), dist map[string]int) {
 		e.Logger.SetOutput(io.Discard)
 		e.Renderer = c05Renderer{}
 		e.Use(middleware.RecoverWithConfig(middleware.RecoverConfig{DisablePrintStack: true}))
+		if rng.Intn(3) == 0 {
+			// a pass-through Pre middleware: routing then happens inside the chain, for THIS request
+			e.Pre(func(next echo.HandlerFunc) echo.HandlerFunc { return func(c echo.Context) error { return next(c) } })
+			dist["instances_with_pre_middleware"]++
+		}
 		type reqState struct {
 			id       int
 			q        string
